@@ -492,6 +492,52 @@ Example depth_bounded_with_limit_nontrivial :
   skel_depth_lim 5 (paren_stmt 40) = 46 /\ skel_depth (paren_stmt 40) = 414.
 Proof. vm_compute. auto. Qed.
 
+(** ** Part 4: the repair is conservative.  Whatever the repaired parser (any limit) accepts, the
+    current parser accepts with the same remaining tokens and the same depth: the guard only ever
+    turns a result into a ParseError, it never accepts anything new or changes an accepted parse. *)
+Definition refines (a b : option pres) : Prop :=
+  match a with Some (POk _ _) => b = a | _ => True end.
+
+Lemma refines_refl a : refines a a.
+Proof. destruct a as [[? ?|?]|]; cbn; auto. Qed.
+
+Lemma refines_bind x x' k k' :
+  refines x x' -> (forall ts m, refines (k ts m) (k' ts m)) -> refines (bindP x k) (bindP x' k').
+Proof.
+  intros Hx Hk. destruct x as [[ts m|m]|]; cbn in *; auto.
+  subst x'. cbn. apply Hk.
+Qed.
+
+Ltac ref_step IH :=
+  match goal with
+  | |- refines ?a ?a => apply refines_refl
+  | |- refines (run (Some _) ?f ?n ?d ?g ?ts ?m) (run None ?f ?n ?d ?g ?ts ?m) => apply IH
+  | |- refines (bindP _ _) (bindP _ _) => apply refines_bind; [| intros ? ?; cbv beta zeta]
+  | |- refines (if ?c then _ else _) (if ?c then _ else _) => destruct c
+  | |- refines (if ?c then err _ else _) _ => destruct c; [exact I|]
+  | |- refines (err _) _ => exact I
+  end.
+
+Lemma run_lim_refines l : forall fuel n d g ts m,
+  refines (run (Some l) fuel n d g ts m) (run None fuel n d g ts m).
+Proof.
+  induction fuel as [|f IH]; intros n d g ts m; [exact I|].
+  destruct n; cbn [run is_frame is_guarded over andb]; cbv zeta; repeat ref_step IH.
+Qed.
+
+Theorem repair_conservative l ts ts' m :
+  skel_parse_lim (Some l) ts = Some (POk ts' m) -> skel_parse ts = Some (POk ts' m).
+Proof.
+  unfold skel_parse, skel_parse_lim. intros H.
+  pose proof (run_lim_refines l (skel_fuel ts) NStatement 0 0 ts 0) as R.
+  rewrite H in R. exact R.
+Qed.
+
+Example repair_conservative_nontrivial :
+  skel_parse_lim (Some 9) (paren_stmt 7) = Some (POk [SEof] 84) /\
+  skel_parse (paren_stmt 7) = Some (POk [SEof] 84).
+Proof. vm_compute. auto. Qed.
+
 (** ** Statements pinned in Props/C23.v *)
 Theorem depth_witnesses k :
   skel_depth (paren_stmt k) = 10 * k + 14 /\ skel_depth (minus_stmt k) = k + 14 /\
